@@ -319,42 +319,6 @@ func judge(c *pcase) (v verdict) {
 	h1 := irx.Hash(cur)
 	v.changed = h1 != h0
 
-	// (b) well-formedness: nothing new relative to before
-	var issues1 []irx.Issue
-	func() {
-		defer func() {
-			if r := recover(); r != nil {
-				issues1 = []irx.Issue{{Rule: "harness.panic", Where: "StrictValidate", Msg: fmt.Sprint(r), Expr: -1, Value: -1}}
-			}
-		}()
-		issues1 = irx.StrictValidateOpts(cur, irx.Options{SSA: ssa})
-	}()
-	c0, c1 := ruleCounts(issues0), ruleCounts(issues1)
-	explained := map[string]int{}
-	for _, is := range issues1 {
-		if tag := knownShape(cur, is, c.Passes); tag != "" {
-			explained[is.Rule]++
-			v.class("known:" + tag)
-		}
-	}
-	var rules []string
-	for r := range c1 {
-		rules = append(rules, r)
-	}
-	sort.Strings(rules)
-	var fresh []string
-	for _, r := range rules {
-		left := c1[r] - explained[r]
-		if left > c0[r] && (c0[r] == 0 || !dup) {
-			fresh = append(fresh, fmt.Sprintf("%s (%d before, %d after) e.g. %s", r, c0[r], c1[r], describeUnknown(cur, issues1, r, c.Passes)))
-		}
-	}
-	if len(fresh) > 0 && os.Getenv("C13_NOWF") == "" {
-		v.ok = false
-		v.msg = fmt.Sprintf("after %v the module is no longer well-formed:\n%s", c.Passes, strings.Join(fresh, "\n"))
-		return v
-	}
-
 	// (a) behaviour
 	limit := before.res.Steps*16 + 200000
 	lazy := ((hasPass(c.Passes, "inline:") || hasPass(c.Passes, "dxil:prepare")) && active("c13-inline-callresult-load-unemitted")) ||
@@ -424,6 +388,42 @@ func judge(c *pcase) (v verdict) {
 				}
 			}
 		}
+	}
+
+	// (b) well-formedness: nothing new relative to before
+	var issues1 []irx.Issue
+	func() {
+		defer func() {
+			if r := recover(); r != nil {
+				issues1 = []irx.Issue{{Rule: "harness.panic", Where: "StrictValidate", Msg: fmt.Sprint(r), Expr: -1, Value: -1}}
+			}
+		}()
+		issues1 = irx.StrictValidateOpts(cur, irx.Options{SSA: ssa})
+	}()
+	c0, c1 := ruleCounts(issues0), ruleCounts(issues1)
+	explained := map[string]int{}
+	for _, is := range issues1 {
+		if tag := knownShape(cur, is, c.Passes); tag != "" {
+			explained[is.Rule]++
+			v.class("known:" + tag)
+		}
+	}
+	var rules []string
+	for r := range c1 {
+		rules = append(rules, r)
+	}
+	sort.Strings(rules)
+	var fresh []string
+	for _, r := range rules {
+		left := c1[r] - explained[r]
+		if left > c0[r] && (c0[r] == 0 || !dup) {
+			fresh = append(fresh, fmt.Sprintf("%s (%d before, %d after) e.g. %s", r, c0[r], c1[r], describeUnknown(cur, issues1, r, c.Passes)))
+		}
+	}
+	if len(fresh) > 0 && os.Getenv("C13_NOWF") == "" {
+		v.ok = false
+		v.msg = fmt.Sprintf("after %v the module is no longer well-formed:\n%s", c.Passes, strings.Join(fresh, "\n"))
+		return v
 	}
 
 	// (c) idempotence of the last pass
@@ -544,28 +544,14 @@ func active(tag string) bool {
 	if noExclude {
 		return false
 	}
+	if off := os.Getenv("C13_OFF"); off != "" && strings.Contains(","+off+",", ","+tag+",") {
+		return false // development aid: treat this finding as not listed
+	}
 	return localKnownTags[tag] || ev.ExcludedQuiet(tag)
 }
 
 // localKnownTags: findings of this check that are not yet listed in known_findings.json.
-var localKnownTags = map[string]bool{
-	"c13-inline-callresult-load-unemitted":       true, // C13-1
-	"c13-inline-callee-locals-not-reinitialised": true, // C13-2
-	"c13-mem2reg-single-block-in-loop":           true, // C13-3
-	"c13-sroa-inplace-rewrite":                   true, // C13-4
-	"c13-dce-removes-branch-of-phi":              true, // C13-5
-	"c13-dce-drops-emit-of-live-expression":      true, // C13-6
-	"c13-mem2reg-not-idempotent":                 true, // C13-7
-	"c13-dce-not-idempotent":                     true, // C13-8
-	"c13-reordertypes-not-idempotent":            true, // C13-9
-	"c13-inline-early-return-in-loop-or-switch":  true, // C13-10
-	"c13-sroa-compose-without-type":              true, // C13-11
-	"c13-mem2reg-switch-early-break":             true, // C13-12
-	"c13-mem2reg-store-before-loop-dropped":      true, // C13-13
-	"c13-compacttypes-not-idempotent":            true, // C13-14
-	"c13-sroa-full-compose-store-not-decomposed": true, // C13-15
-	"c13-dce-removes-live-store-to-local":        true, // C13-16
-}
+var localKnownTags = map[string]bool{}
 
 func exprKindOf(is irx.Issue) ir.ExpressionKind {
 	if is.Fn == nil || is.Expr < 0 || is.Expr >= len(is.Fn.Expressions) {
